@@ -77,12 +77,85 @@ def _run(cmd):
     return p.stdout
 
 
+def c_const_eval(txt):
+    """value of a C integer constant expression made of decimal literals and operators only
+    (precedence climbing; all values are small non-negative ints here, `/` is integer division)"""
+    toks = re.findall(r"\d+|<<|>>|<=|>=|==|!=|&&|\|\||[()+\-*/%<>?:&^|~!]", txt)
+    if "".join(toks) != re.sub(r"\s+", "", txt):
+        raise Unhandled("constant expression: " + txt[:60])
+    pos = [0]
+    def peek():
+        return toks[pos[0]] if pos[0] < len(toks) else None
+    def take(t=None):
+        x = peek()
+        if t is not None and x != t:
+            raise Unhandled("constant expression: expected %s" % t)
+        pos[0] += 1
+        return x
+    LV = [["||"], ["&&"], ["|"], ["^"], ["&"], ["==", "!="], ["<", ">", "<=", ">="], ["<<", ">>"], ["+", "-"], ["*", "/", "%"]]
+    def unary():
+        x = peek()
+        if x == "(":
+            take(); v = cond(); take(")"); return v
+        if x in ("-", "~", "!", "+"):
+            take(); v = unary()
+            return {"-": -v, "~": ~v, "!": int(v == 0), "+": v}[x]
+        if x is None or not x.isdigit():
+            raise Unhandled("constant expression: token %s" % x)
+        take(); return int(x)
+    def binl(i):
+        if i == len(LV):
+            return unary()
+        v = binl(i + 1)
+        while peek() in LV[i]:
+            op = take(); w = binl(i + 1)
+            if op in ("/", "%") and w == 0:
+                raise Unhandled("constant expression: division by zero")
+            v = {"||": lambda: int(bool(v) or bool(w)), "&&": lambda: int(bool(v) and bool(w)), "|": lambda: v | w, "^": lambda: v ^ w,
+                 "&": lambda: v & w, "==": lambda: int(v == w), "!=": lambda: int(v != w), "<": lambda: int(v < w), ">": lambda: int(v > w),
+                 "<=": lambda: int(v <= w), ">=": lambda: int(v >= w), "<<": lambda: v << w, ">>": lambda: v >> w, "+": lambda: v + w,
+                 "-": lambda: v - w, "*": lambda: v * w, "/": lambda: abs(v) // abs(w) * (1 if (v >= 0) == (w >= 0) else -1),
+                 "%": lambda: v - w * (abs(v) // abs(w) * (1 if (v >= 0) == (w >= 0) else -1))}[op]()
+        return v
+    def cond():
+        c = binl(0)
+        if peek() == "?":
+            take(); a = cond(); take(":"); b = cond()
+            return a if c else b
+        return c
+    v = cond()
+    if pos[0] != len(toks):
+        raise Unhandled("constant expression: trailing tokens")
+    return v
+
+
+# files whose array subscripts are huge constant macro expressions (permutation indices of bash-f): the
+# preprocessed text is rewritten with the subscripts evaluated before clang builds the AST (5 GB of JSON otherwise)
+PREFOLD = {"src/crypto/bash/bash_f64.c", "src/crypto/bash/bash_f32.c"}
+
+
 class TU:
     def __init__(self, src, extra):
         self.src = src
         self.extra = list(extra)
         base = ["clang-14", "-I%s/include" % REPO, "-I%s/src" % REPO, "-Wno-everything"] + self.extra
-        self.ast = json.loads(_run(base + ["-fsyntax-only", "-Xclang", "-ast-dump=json", os.path.join(REPO, src)]))
+        if src in PREFOLD:
+            txt = _run(base + ["-E", "-P", os.path.join(REPO, src)])
+            def sub(m):
+                inner = m.group(1)
+                if not re.search(r"[?%*/<>^]", inner) or len(inner) < 12:
+                    return m.group(0)
+                v = c_const_eval(inner)
+                if v < 0:
+                    raise Unhandled("negative subscript")
+                return "[%d]" % v
+            txt = re.sub(r"\[([^\[\]A-Za-z_]*)\]", sub, txt)
+            p = subprocess.run(base + ["-fsyntax-only", "-Xclang", "-ast-dump=json", "-x", "c", "-"], input=txt, capture_output=True, text=True)
+            if p.returncode != 0:
+                raise Unhandled("clang failed on prefolded %s: %s" % (src, p.stderr[-300:]))
+            self.ast = json.loads(p.stdout)
+        else:
+            self.ast = json.loads(_run(base + ["-fsyntax-only", "-Xclang", "-ast-dump=json", os.path.join(REPO, src)]))
         self.typedefs, self.funcs, self.globals_, self.records = {}, {}, {}, {}
         for n in self.ast.get("inner", []):
             k = n.get("kind")
@@ -193,10 +266,17 @@ def seq(lst):
     lst = [s for s in lst if s != ("skip",)]
     if not lst:
         return ("skip",)
-    r = lst[-1]
-    for s in reversed(lst[:-1]):
-        r = ("seq", s, r)
-    return r
+    # balanced tree (sequencing is associative): keeps the nesting depth logarithmic for the long
+    # straight-line bodies of the block primitives
+    def bal(l):
+        if len(l) == 1:
+            return l[0]
+        h = len(l) // 2
+        return ("seq", bal(l[:h]), bal(l[h:]))
+    flat = []
+    for x in lst:
+        flat.append(x)
+    return bal(flat)
 
 
 class FnTr:
@@ -462,7 +542,15 @@ class FnTr:
 
     # ---- rvalues
     def rvalue(self, n):
-        """-> (pre statements, pure expression)"""
+        """-> (pre statements, pure expression); constant sub-expressions are folded at once"""
+        if n.get("kind") == "ConditionalOperator":
+            pc, ec = self.rvalue(n["inner"][0])
+            if not pc and ec[0] == "const":
+                return self.rvalue(n["inner"][1] if ec[1] != 0 else n["inner"][2])
+        p, e = self.rvalue0(n)
+        return p, fold_top(e)
+
+    def rvalue0(self, n):
         k = n["kind"]
         if k in ("ParenExpr", "ConstantExpr"):
             return self.rvalue(n["inner"][0])
@@ -814,11 +902,15 @@ class FnTr:
 STRLEN_IR = None  # built in World (synthetic model of libc strlen on PUBLIC memory)
 
 
+_TU_CACHE = {}     # parsed translation units are shared by the programs generated in one run
+
+
 class World:
     def __init__(self, extra=EXTRA, search=None, nofollow=None):
         self.extra = list(extra)
         self.search = list(search) if search is not None else SEARCH_FILES
         self.nofollow = set(nofollow) if nofollow is not None else NOFOLLOW
+        self.synth = False      # executable models of libc memcpy/memmove/memset and of the ppMul dispatch (exec program only)
         self.tus = {}
         self.fn = {}            # name -> FnTr or synthetic dict
         self.order = []         # callee-first
@@ -830,7 +922,10 @@ class World:
 
     def tu(self, src):
         if src not in self.tus:
-            self.tus[src] = TU(src, self.extra)
+            key = (REPO, src, tuple(self.extra))
+            if key not in _TU_CACHE:
+                _TU_CACHE[key] = TU(src, self.extra)
+            self.tus[src] = _TU_CACHE[key]
         return self.tus[src]
 
     def global_addr(self, tu, name):
@@ -900,8 +995,14 @@ class World:
             return
         if name in stack:
             raise Unhandled("recursion through " + name)
-        if name == "strlen":
-            self.impure[name] = False
+        if name == "strlen" or (self.synth and name in SYNTH):
+            sy = SYNTH[name]
+            for cn in sy["callees"]:
+                self.add(cn[1], cn[0], stack + (name,))
+            for e in sy.get("exts", []):
+                if e not in self.exts:
+                    self.exts.append(e)
+            self.impure[name] = sy["impure"]
             self.fn[name] = "synthetic"
             self.order.append(name)
             return
@@ -1118,6 +1219,8 @@ def lean_e(e):
 def lean_s(s, idx, ind):
     pad = "  " * ind
     k = s[0]
+    if k == "ref":
+        return pad + s[1]
     if k == "skip":
         return pad + ".skip"
     if k == "assign":
@@ -1142,6 +1245,35 @@ def lean_s(s, idx, ind):
             return pad + "(.call %s %d [%s])" % (dst, idx["fun"][s[2]], ", ".join(lean_e(a) for a in s[3]))
         return pad + "(.ext %s %d [%s])" % (dst, idx["ext"][s[2]], ", ".join(lean_e(a) for a in s[3]))
     raise Unhandled("emit " + k)
+
+
+def s_size(s):
+    k = s[0]
+    if k == "seq":
+        return s_size(s[1]) + s_size(s[2])
+    if k == "ite":
+        return 1 + s_size(s[2]) + s_size(s[3])
+    if k == "loop":
+        return 1 + s_size(s[1]) + s_size(s[3]) + s_size(s[4])
+    return 1
+
+
+def emit_fun(f, idx, chunk=48):
+    """Lean text of one function; long straight-line bodies are cut into separately defined pieces
+    (`f_<name>_k : Stmt`) so that no single term is huge"""
+    pieces = []
+
+    def cut(s):
+        if s[0] == "seq" and s_size(s) > chunk:
+            return ("seq", cut(s[1]), cut(s[2]))
+        if s[0] == "seq" and s_size(s) > chunk // 4 and s_size(f["body"]) > 4 * chunk:
+            nm = "f_%s_%d" % (f["name"], len(pieces))
+            pieces.append("def %s : Stmt :=\n%s" % (nm, lean_s(s, idx, 1)))
+            return ("ref", nm)
+        return s
+    body = cut(f["body"])
+    return pieces, "def f_%s : Fun := { nparams := %d, pubv := [%s], retPub := %s, body :=\n%s }" % (
+        f["name"], f["nparams"], ", ".join(map(str, f["pubv"])), "true" if f["retPub"] else "false", lean_s(body, idx, 1))
 
 
 def strlen_body():
@@ -1171,7 +1303,83 @@ PRIM_FILES = ["src/crypto/belt/belt_block.c", "src/crypto/belt/belt_compr.c", "s
 PRIM_OPAQUE = ["ppMul"]
 
 
+def _v(i):
+    return ("var", i)
+
+
+def memcpy_body():
+    # void* memcpy(void* d, const void* s, size_t n) { for (i = 0; i < n; ++i) d[i] = s[i]; return d; }
+    return seq([("assign", 3, const(0)),
+                ("loop", ("skip",), ("bin", "lt", U64, _v(3), _v(2)),
+                 ("store", False, 1, ("bin", "add", U64, _v(0), _v(3)), ("load", False, 1, ("bin", "add", U64, _v(1), _v(3)))),
+                 ("assign", 3, ("bin", "add", U64, _v(3), const(1)))),
+                ("ret", _v(0))])
+
+
+def memmove_body():
+    # forward copy if d <= s, backward copy otherwise (overlap-safe)
+    fwd = seq([("assign", 3, const(0)),
+               ("loop", ("skip",), ("bin", "lt", U64, _v(3), _v(2)),
+                ("store", False, 1, ("bin", "add", U64, _v(0), _v(3)), ("load", False, 1, ("bin", "add", U64, _v(1), _v(3)))),
+                ("assign", 3, ("bin", "add", U64, _v(3), const(1))))])
+    bwd = seq([("assign", 3, _v(2)),
+               ("loop", ("skip",), ("bin", "ne", U64, _v(3), const(0)),
+                seq([("assign", 3, ("bin", "sub", U64, _v(3), const(1))),
+                     ("store", False, 1, ("bin", "add", U64, _v(0), _v(3)), ("load", False, 1, ("bin", "add", U64, _v(1), _v(3))))]),
+                ("skip",))])
+    return seq([("ite", ("bin", "le", U64, _v(0), _v(1)), fwd, bwd), ("ret", _v(0))])
+
+
+def memset_body():
+    return seq([("assign", 3, const(0)),
+                ("loop", ("skip",), ("bin", "lt", U64, _v(3), _v(2)),
+                 ("store", False, 1, ("bin", "add", U64, _v(0), _v(3)), ("cast", (32, True), (8, False), _v(1))),
+                 ("assign", 3, ("bin", "add", U64, _v(3), const(1)))),
+                ("ret", _v(0))])
+
+
+def ppmul_body():
+    # ppMul(c, a, n, b, m, stack) for n == m in {1, 2, 4}: what the table of function pointers of ppMulEq selects
+    def call(f):
+        return ("call", None, f, [_v(0), _v(1), _v(3), _v(5)], ("sec", "sec", "sec", "sec"))
+    stuck = ("ext", )
+    return ("ite", ("bin", "eq", U64, _v(2), const(2)), call("ppMul2"),
+            ("ite", ("bin", "eq", U64, _v(2), const(4)), call("ppMul4"),
+             ("ite", ("bin", "eq", U64, _v(2), const(1)), call("ppMul1"), ("call", None, "__unsupported_ppMul_length", [], ()))))
+
+
+SYNTH = {
+    "strlen": {"nparams": 1, "vnames": ["s", "n"], "pubv": [0, 1], "retPub": True, "pcls": ("pub",), "ret": (64, False),
+               "pdesc": ["ptr:pub"], "body": strlen_body, "callees": [], "impure": False, "doc": "synthetic model of libc strlen on public memory"},
+    "memcpy": {"nparams": 3, "vnames": ["d", "s", "n", "i"], "pubv": [0, 1, 2, 3], "retPub": True, "pcls": ("sec", "sec", "-"), "ret": (64, False),
+               "pdesc": ["ptr:sec", "ptr:sec", "public"], "body": memcpy_body, "callees": [], "impure": True, "doc": "synthetic model of libc memcpy"},
+    "memmove": {"nparams": 3, "vnames": ["d", "s", "n", "i"], "pubv": [0, 1, 2, 3], "retPub": True, "pcls": ("sec", "sec", "-"), "ret": (64, False),
+                "pdesc": ["ptr:sec", "ptr:sec", "public"], "body": memmove_body, "callees": [], "impure": True, "doc": "synthetic model of libc memmove"},
+    "memset": {"nparams": 3, "vnames": ["d", "c", "n", "i"], "pubv": [0, 2, 3], "retPub": True, "pcls": ("sec", "-", "-"), "ret": (64, False),
+               "pdesc": ["ptr:sec", "SECRET", "public"], "body": memset_body, "callees": [], "impure": True, "doc": "synthetic model of libc memset"},
+    "ppMul": {"nparams": 6, "vnames": ["c", "a", "n", "b", "m", "stack"], "pubv": [0, 1, 2, 3, 4, 5], "retPub": True,
+              "pcls": ("sec", "sec", "-", "sec", "-", "sec"), "ret": (0, False), "pdesc": ["ptr:sec", "ptr:sec", "public", "ptr:sec", "public", "ptr:sec"],
+              "body": ppmul_body, "callees": [("src/math/pp/pp_mul.c", "ppMul1"), ("src/math/pp/pp_mul.c", "ppMul2"), ("src/math/pp/pp_mul.c", "ppMul4")],
+              "exts": ["__unsupported_ppMul_length"], "impure": True, "doc": "synthetic model of the length dispatch of ppMul/ppMulEq (n == m in {1, 2, 4})"},
+}
+EXEC_FILES = SEARCH_FILES + [f for f in PRIM_FILES if f not in SEARCH_FILES] + ["src/core/u32.c", "src/core/u64.c", "src/core/blob.c",
+                                                                                "src/crypto/belt/belt_wbl.c"]
+EXEC_ROOTS = [r for r in VERIFY] + PRIM_ROOTS
+
+
 def build(extra=EXTRA, prim=False):
+    if prim == "exec":
+        # the program that the driver EXECUTES for the value tie: nothing opaque except the allocator,
+        # libc replaced by the synthetic models above (not used for any theorem)
+        W = World(extra, search=EXEC_FILES, nofollow=("blobCreate", "blobClose", "ppMul"))
+        W.synth = True
+        roots = []
+        for src, name in EXEC_ROOTS:
+            W.add(name, src)
+            if name not in W.fn:
+                raise Unhandled("%s not translated" % name)
+            roots.append(name)
+        return finish_build(W, roots, [])
     if prim:
         W = World(extra, search=PRIM_FILES, nofollow=PRIM_OPAQUE)
         roots = []
@@ -1201,6 +1409,136 @@ def build(extra=EXTRA, prim=False):
     return finish_build(W, roots, safes)
 
 
+# --------------------------------------------------------------------------- constant folding
+# (same arithmetic as `unop` / `binop` / cast of IR.lean; constant sub-expressions come from macro
+#  parameters such as the permutation index P5(x) of bash-f or O_PER_W = 64 / 8)
+
+def _to_int(t, v):
+    return v - (1 << t[0]) if (t[1] and v >= (1 << (t[0] - 1))) else v
+
+
+def _of_int(t, i):
+    return i % (1 << t[0])
+
+
+def _tdiv(a, b):
+    if b == 0:
+        return 0
+    q = abs(a) // abs(b)
+    return q if (a >= 0) == (b >= 0) else -q
+
+
+def _binop(op, t, a, b):
+    M = 1 << t[0]
+    if op == "add":
+        return (a + b) % M
+    if op == "sub":
+        return _of_int(t, a - b)
+    if op == "mul":
+        return (a * b) % M
+    if op == "band":
+        return a & b
+    if op == "bor":
+        return a | b
+    if op == "bxor":
+        return a ^ b
+    if op == "shl":
+        return (a << b) % M if b < t[0] else 0
+    if op == "shr":
+        return _of_int(t, _to_int(t, a) >> b) if t[1] else a >> b
+    if op in ("lt", "le", "gt", "ge"):
+        x, y = _to_int(t, a), _to_int(t, b)
+        return int({"lt": x < y, "le": x <= y, "gt": x > y, "ge": x >= y}[op])
+    if op == "eq":
+        return int(a == b)
+    if op == "ne":
+        return int(a != b)
+    if op == "div":
+        return _of_int(t, _tdiv(_to_int(t, a), _to_int(t, b))) if t[1] else (a // b if b else 0)
+    if op == "rem":
+        if t[1]:
+            x, y = _to_int(t, a), _to_int(t, b)
+            return _of_int(t, x - y * _tdiv(x, y)) if y else _of_int(t, x)
+        return a % b if b else a
+    raise Unhandled("fold " + op)
+
+
+def fold_e(e):
+    k = e[0]
+    if k in ("var", "const"):
+        return e
+    if k == "un":
+        a = fold_e(e[3])
+        if a[0] == "const":
+            t, v = e[2], a[1]
+            if e[1] == "neg":
+                return ("const", _of_int(t, -v))
+            if e[1] == "bnot":
+                return ("const", ((1 << t[0]) - 1 - v % (1 << t[0])) % (1 << t[0]))
+            return ("const", int(v == 0))
+        return ("un", e[1], e[2], a)
+    if k == "bin":
+        a, b = fold_e(e[3]), fold_e(e[4])
+        if a[0] == "const" and b[0] == "const":
+            return ("const", _binop(e[1], e[2], a[1], b[1]))
+        return ("bin", e[1], e[2], a, b)
+    if k == "cast":
+        a = fold_e(e[3])
+        if a[0] == "const":
+            return ("const", _of_int(e[2], _to_int(e[1], a[1])))
+        return ("cast", e[1], e[2], a)
+    if k == "load":
+        return ("load", e[1], e[2], fold_e(e[3]))
+    if k in ("land", "lor"):
+        a, b = fold_e(e[1]), fold_e(e[2])
+        if a[0] == "const" and b[0] == "const":
+            return ("const", int((a[1] != 0 and b[1] != 0) if k == "land" else (a[1] != 0 or b[1] != 0)))
+        return (k, a, b)
+    if k == "cond":
+        c = fold_e(e[1])
+        if c[0] == "const":          # `constant ? x : y`: the untaken arm is not even translated further
+            return fold_e(e[2]) if c[1] != 0 else fold_e(e[3])
+        return ("cond", c, fold_e(e[2]), fold_e(e[3]))
+    raise Unhandled("fold " + k)
+
+
+def fold_top(e):
+    """fold only the top node (the operands are already folded)"""
+    k = e[0]
+    if k == "un" and e[3][0] == "const":
+        return fold_e(e)
+    if k == "bin" and e[3][0] == "const" and e[4][0] == "const":
+        return fold_e(e)
+    if k == "cast" and e[3][0] == "const":
+        return fold_e(e)
+    if k in ("land", "lor") and e[1][0] == "const" and e[2][0] == "const":
+        return fold_e(e)
+    if k == "cond" and e[1][0] == "const":
+        return e[2] if e[1][1] != 0 else e[3]
+    if k == "bin" and e[1] == "add" and e[4] == ("const", 0):
+        return e[3]
+    return e
+
+
+def fold_s(s):
+    k = s[0]
+    if k == "assign":
+        return ("assign", s[1], fold_e(s[2]))
+    if k == "store":
+        return ("store", s[1], s[2], fold_e(s[3]), fold_e(s[4]))
+    if k == "seq":
+        return ("seq", fold_s(s[1]), fold_s(s[2]))
+    if k == "ite":
+        return ("ite", fold_e(s[1]), fold_s(s[2]), fold_s(s[3]))
+    if k == "loop":
+        return ("loop", fold_s(s[1]), fold_e(s[2]), fold_s(s[3]), fold_s(s[4]))
+    if k == "ret":
+        return ("ret", fold_e(s[1]))
+    if k == "call":
+        return ("call", s[1], s[2], [fold_e(a) for a in s[3]], s[4])
+    return s
+
+
 def finish_build(W, roots, safes):
     # check memory classes of pointer arguments against the callee's parameters
     W.sig = {}
@@ -1208,9 +1546,11 @@ def finish_build(W, roots, safes):
     for name in W.order:
         tr = W.fn[name]
         if tr == "synthetic":
-            W.sig[name] = {"retPub": True, "pcls": ("pub",), "nparams": 1}
-            funs.append({"name": name, "nparams": 1, "pubv": [0, 1], "retPub": True, "body": strlen_body(),
-                         "vnames": ["s", "n"], "ret": (64, False), "params": [("s", "ptr:pub")], "cuts": 0})
+            sy = SYNTH[name]
+            W.sig[name] = {"retPub": sy["retPub"], "pcls": sy["pcls"], "nparams": sy["nparams"]}
+            funs.append({"name": name, "nparams": sy["nparams"], "pubv": sy["pubv"], "retPub": sy["retPub"], "body": sy["body"](),
+                         "vnames": sy["vnames"], "ret": sy["ret"], "params": [(v, c) for v, c in zip(sy["vnames"], sy["pdesc"])], "cuts": 0,
+                         "src": sy["doc"]})
             continue
         # class check at call sites
         def chk(s):
@@ -1226,9 +1566,10 @@ def finish_build(W, roots, safes):
                 if isinstance(x, tuple) and x and isinstance(x[0], str) and x[0] in ("seq", "ite", "loop", "call"):
                     chk(x)
         chk(tr.body)
+        tr.body = fold_s(tr.body)
         pubv, retpub = infer(W, tr)
         ncuts = 0
-        if name in VERDICT_FUNS:
+        if name in VERDICT_FUNS and not getattr(W, 'synth', False):
             rw, cuts, relvars = verdict_cut(tr)
             tr.body = rw(tr.body, pubv)
             ncuts = len(cuts)
@@ -1245,7 +1586,7 @@ def finish_build(W, roots, safes):
 
 def generate(extra=EXTRA, module="C14IR", prim=False):
     W, funs, roots, safes = build(extra, prim)
-    opaque = PRIM_OPAQUE if prim else OPAQUE
+    opaque = [e for e in W.exts if not e.startswith("__")] if prim == "exec" else (PRIM_OPAQUE if prim else OPAQUE)
     idx = {"fun": {f["name"]: i for i, f in enumerate(funs)}, "ext": {n: i for i, n in enumerate(W.exts)}}
     out = []
     out.append("/- GENERATED by xlate/x_c14_ir.py from the C sources of /repo — do not edit.")
@@ -1260,9 +1601,9 @@ def generate(extra=EXTRA, module="C14IR", prim=False):
             ", ".join("%s:%s" % p for p in f["params"]),
             ("  [verdict cut x%d]" % f["cuts"]) if f["cuts"] else "",
             " ".join("%d=%s" % (j, n) for j, n in enumerate(f["vnames"]))))
-        out.append("def f_%s : Fun := { nparams := %d, pubv := [%s], retPub := %s, body :=\n%s }" % (
-            f["name"], f["nparams"], ", ".join(map(str, f["pubv"])), "true" if f["retPub"] else "false",
-            lean_s(f["body"], idx, 1)))
+        pieces, text = emit_fun(f, idx)
+        out += pieces
+        out.append(text)
         out.append("")
     out.append("def extNames : List String := [%s]" % ", ".join('"%s"' % n for n in W.exts))
     out.append("def prog : Prog := { funs := [%s], allowExt := [%s] }" % (
@@ -1286,6 +1627,8 @@ def generate_obl(funs, module="C14IR", ns="Obl", strict=True):
            "open Bee2V.C14.IR Bee2V.Gen.%s" % module, ""]
     for f in funs:
         out.append("theorem ct_%s : ctFun prog %s f_%s = true := by decide" % (f["name"], "true" if strict else "false", f["name"]))
+    out.append("/-- the whole program (callees are checked against the labels of their definitions) -/")
+    out.append("theorem ct_prog : ctProg prog %s = true := by decide" % ("true" if strict else "false"))
     out.append("end Bee2V.C14.%s" % ns)
     return "\n".join(out) + "\n"
 
